@@ -308,6 +308,7 @@ def run_record(record, want_record=True, gen=None):
         if clk.back_inside_timed:
             stats["probes"]["backwards_clock_inside_timed_section"] = stats["probes"].get("backwards_clock_inside_timed_section", 0) + clk.back_inside_timed
         sim = run["sim"]
+        stats.setdefault("sets", {}).setdefault("switch_sites", set()).update(sim.switch_sites)
         key = digest(sim.events + [[t["call"], t.get("first"), t.get("switches")] for t in sched.get("threads", [])])
         sched_keys.append(key)
         if sum(run["faults"].values()):
@@ -366,6 +367,8 @@ def _with_disk_faults(rng, cfg, hdr):
 
 
 def _finish(record, viol, log, sched_keys, stats, nontrivial, want_record):
+    if "sets" in stats:
+        stats["sets"] = {k: sorted(v) for k, v in stats["sets"].items()}
     res = {
         "ok": not viol,
         "violations": viol[:5],
